@@ -591,6 +591,18 @@ func TestProtoMarshalerRoundTrip(t *testing.T) {
 		if !proto.Equal(v, out) {
 			t.Fatalf("round trip changed the value: in %v out %v", v, out)
 		}
+		// the target need not be fresh (a re-used or pre-populated object): Unmarshal makes it the decoded value, nothing of
+		// what it held before remains
+		if err := m.Unmarshal(msg.Copy(), out); err != nil || !proto.Equal(v, out) {
+			t.Fatalf("decoding the same message into a target that already holds a value gives %v, sent %v (err %v)", out, v, err)
+		}
+		zeroMsg, err := m.Marshal(fresh())
+		if err != nil {
+			t.Fatalf("Marshal of the zero value failed: %v", err)
+		}
+		if err := m.Unmarshal(zeroMsg, out); err != nil || !proto.Equal(fresh(), out) {
+			t.Fatalf("decoding the zero value into a target that held %v gives %v (err %v)", v, out, err)
+		}
 		// the deprecated gogo-based marshaler is documented as compatible both ways
 		g := cqrs.ProtobufMarshaler{GenerateName: ng}
 		out2 := fresh()
